@@ -61,6 +61,84 @@ def run(ctx, rep):
         check_cell(rep, f, old, new, cell)
     rep.floor('pairs', n, 64)
     check_revert(fx, rep)
+    check_storage_disposition(fx, rep, f)
+    check_revert_slot_writers(fx, rep)
+
+
+def check_storage_disposition(fx, rep, f):
+    """R7: what happens to the slots the bundle account holds from earlier merges.  They describe
+    the previous incarnation when the merged transition destroys the account (new status Destroyed
+    or DestroyedAgain; DestroyedChanged arriving on an account whose storage is still the database's,
+    or with storage_was_destroyed set) and must then be emptied before the new slots are added;
+    they must survive a plain change."""
+    n = 0
+    for old in ST:
+        for new in (C, IMC, D, DC, DA):
+            try:
+                rs = Symx(fx, max_paths=4000, snapshot_refs=True, inline=INLINE).run(
+                    f, [('ref', ('arg', 1), ()), ('with', ('sym', 'arg2'), ((('.status',), K(fx.discr_of(AS, new))),))],
+                    store={(('arg', 1), ('.status',)): K(fx.discr_of(AS, old))})
+            except Budget:
+                continue
+            for r in rs:
+                if '<loop-cut>' in render(r.ret):
+                    continue
+                flag = None
+                for (sv, lit, _f, _b) in r.lits:
+                    if 'storage_was_destroyed' in render(sv):
+                        flag = lit_truth(lit)
+                emptied = False
+                for e in r.events:
+                    short = e[0].split('::')[-1]
+                    if short in ('drain', 'take', 'clear') and e[1] and render(e[1][0]).replace(' ', '') == "&('arg',1).storage":
+                        emptied = True
+                st = [v for (root, path), v in r.stores.items() if root == ('arg', 1) and path == ('.storage',)]
+                if st and render(st[-1]).startswith('arg2.storage'):
+                    emptied = True          # replaced by the transition's own slots
+                must_empty = new in (D, DA) or (new == DC and (old in NEEDS_WIPE or (old == DC and flag is True)))
+                must_keep = (new == C and old in (L, C)) or (new == IMC and old in (L, IMC)) or (new == DC and old == DC and flag is False)
+                key = '%s->%s%s' % (old, new, '' if flag is None else ':storage_was_destroyed=%s' % flag)
+                if new == D and old == LNE:
+                    continue
+                if must_empty:
+                    n += 1
+                    if not emptied:
+                        rep.violation('R7-storage-disposition', key, 'merging %s into a %s account keeps the slots of the destroyed incarnation in the bundle account: to_plain_state would emit them together with the wipe' % (new, old), f.where())
+                    else:
+                        rep.ok('R7-storage-disposition', key, 'old slots emptied', nontrivial=False)
+                elif must_keep:
+                    n += 1
+                    if emptied:
+                        rep.violation('R7-storage-disposition', key, 'merging %s into a %s account discards the slots recorded by earlier merges' % (new, old), f.where())
+                    else:
+                        rep.ok('R7-storage-disposition', key, 'old slots kept', nontrivial=False)
+    rep.floor('R7-paths', n, 30)
+
+
+def check_revert_slot_writers(fx, rep):
+    """R8: an entry of a revert's slot map records the value before the group; once present it is
+    never overwritten.  Every write into a HashMap<U256, RevertToSlot> outside its construction by
+    collect() goes through Entry::or_insert."""
+    n = 0
+    for g in fx.fns_all:
+        if not g.nq.startswith('revm::db::states') or '::tests' in g.nq or '::test' in g.nq:
+            continue
+        for bi, t in g.calls():
+            c_ = t.callee or ''
+            short = c_.split('::')[-1]
+            if short not in ('insert', 'extend', 'or_insert', 'or_insert_with', 'or_default', 'and_modify', 'insert_entry') or not t.args:
+                continue
+            a0 = t.args[0]
+            ty = g.local_ty(a0.place.b) if a0.place is not None else ''
+            if 'RevertToSlot' not in (ty or '') or 'HashMap' not in ty and 'Entry' not in ty:
+                continue
+            n += 1
+            who = g.nq.replace('revm::db::states::', '')
+            if short == 'or_insert':
+                rep.ok('R8-revert-slot-writers', '%s:%s' % (who, short), 'non-overriding')
+            else:
+                rep.violation('R8-revert-slot-writers', '%s:%s' % (who, short), '%s writes a revert slot map with `%s`, which overrides a value recorded before; only Entry::or_insert may add entries to an existing revert' % (who, short), g.where(bi))
+    rep.floor('R8-writers', n, 3)
 
 
 def eval_pair(fx, f, old, new):
